@@ -215,12 +215,21 @@ def replay_once(binpath, scratch, rf, want_log=False, timeout=120):
     return res, (rc != 0 and res is None), err, dec
 
 
+KNOWN_CTX = {"known": [], "prop": None}
+
+
 def classes_of(res, crashed, err):
+    """Classes of the violation events of one replay that no known finding matches:
+    a replay (and every minimisation candidate) must show an UNLISTED event of the class."""
     if crashed:
         return {crash_class(err)}
     if res is None:
         return set()
-    return {v["class"] for v in res.get("violations", [])}
+    out = set()
+    for v in res.get("violations", []):
+        if match_known(KNOWN_CTX["known"], KNOWN_CTX["prop"], res.get("leg", ""), v) is None:
+            out.add(v["class"])
+    return out
 
 
 def crash_class(err):
@@ -347,6 +356,7 @@ def _main(args, prop, cfg, tier, seed0, t0, scratch):
     log("built %s in %.1fs (tree %s)" % (cfg["pkg"], bt, build.tree_fingerprint()))
     legs = args.legs.split(",") if args.legs else cfg["legs"]
 
+    KNOWN_CTX["known"], KNOWN_CTX["prop"] = ([] if args.ignore_known else load_known()), prop
     if args.replay:
         rf = json.load(open(args.replay))
         if rf.get("by_seed"):
@@ -451,7 +461,7 @@ def _main(args, prop, cfg, tier, seed0, t0, scratch):
             rf, ntries = minimise(binpath, scratch, rf, cls, min_budget)
         res3, crashed3, err3, dec3 = replay_once(binpath, scratch, rf, want_log=True)
         if res3 is not None:
-            vs = [x for x in res3.get("violations", []) if x["class"] == cls]
+            vs = [x for x in res3.get("violations", []) if x["class"] == cls and match_known(KNOWN_CTX["known"], prop, leg, x) is None]
             if vs:
                 rf["violation"] = vs[0]
             rf["log_tail"] = (res3.get("log") or [])[-120:]
